@@ -309,6 +309,13 @@ func (e *Engine) solveOne(o *Oblig, dir string, t1, t2 int) {
 	if o.NoReach && t1 > 2 {
 		t1 = 2
 	}
+	if e.curProp != "" && !relevantTo(o, e.curProp) {
+		// speaks about other properties of this function: one short attempt, their own checks
+		// spend the full effort on it
+		r := runSolver(solvers[0], file, t1)
+		o.Secs, o.Status, o.Solver, o.Model = r.secs, r.status, r.solver, r.out
+		return
+	}
 	if e.knownNames[o.Name] {
 		// a recorded finding is expected not to be provable: one short attempt (it is reported as
 		// KNOWN-FINDING unless it has become provable)
@@ -448,7 +455,7 @@ func (e *Engine) solveAll(obs []*Oblig, dir string, t1, t2 int, workers int) {
 	// a provable obligation into an alarm.
 	var retry []*Oblig
 	for _, o := range obs {
-		if !o.preSolved && !o.NoReach && o.Status != "proved" && o.Status != "refuted" && o.File != "" && !e.knownNames[o.Name] {
+		if !o.preSolved && !o.NoReach && o.Status != "proved" && o.Status != "refuted" && o.File != "" && !e.knownNames[o.Name] && (e.curProp == "" || relevantTo(o, e.curProp)) {
 			retry = append(retry, o)
 		}
 	}
